@@ -1536,10 +1536,9 @@ pub fn check_fired(name: &str, pre: &Snap, post: &Snap) -> RefResult {
             let items = load_items_ref(&mut e, &ids);
             if k < e.c.len() {
                 e.c[k] = SItem::List(items);
-            } else {
-                // the addressed record was itself consumed as a list member: not judged
-                return Ok(());
             }
+            // else: the addressed position was itself consumed as a list member - the guard fails after the
+            // operands were taken: the items are gone, nothing is pushed or replaced (C10: "it pushes nothing")
             mism(&e, post)
         }
         "LIST.REMOVE" => {
